@@ -44,3 +44,4 @@ def check(repo, rep, tier):
     rep.run(re_.rule_token_kinds_keep_their_class, cm, rep, 'C16.A13')
     # to_python converts what a term stands for now: every component it reads goes through to_python/get_value
     rep.run(rs.rule_to_python_siblings, em, rep, 'C16.A14')
+    rep.run(rs.rule_constructors_leave_arguments, em, rep, 'C16.A15')
